@@ -52,6 +52,15 @@ class tar_syncer(http_syncer, base.ExternalSyncer):
         # remove tempdirs on exit
         atexit.register(partial(shutil.rmtree, self.tempdir, ignore_errors=True))
         atexit.register(partial(shutil.rmtree, self.tempdir_old, ignore_errors=True))
+
+        # a run that got killed never reached its exit handlers: if it died
+        # between the two renames of the swap the previous tree is still in
+        # the staging area; anything else left there is stale.
+        if not os.path.exists(basedir) and os.path.isdir(self.tempdir_old):
+            if os.listdir(self.tempdir_old):
+                os.rename(self.tempdir_old, basedir)
+        shutil.rmtree(self.tempdir, ignore_errors=True)
+        shutil.rmtree(self.tempdir_old, ignore_errors=True)
         return self.tarball.name
 
     def _post_download(self, path):
